@@ -15,10 +15,10 @@ func init() {
 		DesignRef: "DESIGN.md §5 C48",
 		Level: "Decides that the agent's Querier, ChunkQuerier and ExemplarQuerier return ErrUnsupported on every path, that an appender's pending data is cleared only after it was logged without error (on rollback: after its series records were logged), that series records are written before any record that refers to them, that float and histogram appends are refused when not newer than the series' last timestamp minus the window before anything is queued, " +
 			"that truncation removes WAL segments only after a successful checkpoint and forgets deleted refs only after that, that the checkpoint keeps a deleted or duplicate series record while a later segment may still refer to it, that replay hands loadWAL the index of the segment it is reading, and that every arm of loadWAL that remaps a duplicate ref records that segment for it.",
-		Note:     "Trusted: go/packages, go/types, go/cfg; rule tables in checker/c48.go (truncation and series-first rules are shared with C03.R4 / C15.R3 / C15.R5).",
-		Covers:   "agent.DB.Querier/ChunkQuerier/ExemplarQuerier, appenderBase.commit/rollback/log/logSeries, appender.Append/AppendHistogram, DB.truncate, keepSeriesInWALCheckpointFn, DB.replayWAL, DB.loadWAL.",
-		NotCover: "the timestamp comparison itself, contents of the WAL, which segments a truncation covers (runtime values).",
-		Run:      runC48,
+		Note:           "Trusted: go/packages, go/types, go/cfg; rule tables in checker/c48.go (truncation and series-first rules are shared with C03.R4 / C15.R3 / C15.R5).",
+		Covers:         "agent.DB.Querier/ChunkQuerier/ExemplarQuerier, appenderBase.commit/rollback/log/logSeries, appender.Append/AppendHistogram, DB.truncate, keepSeriesInWALCheckpointFn, DB.replayWAL, DB.loadWAL.",
+		NotCover:       "the timestamp comparison itself, contents of the WAL, which segments a truncation covers (runtime values).",
+		Run:            runC48,
 		MinObligations: 25,
 	})
 }
@@ -69,7 +69,7 @@ func runC48(c *eng.Ctx) {
 	tr.Gate("R3", cp, p.MethodOn(A+"DB.wal", "Truncate"))
 	tr.Gate("R3", cp, p.DeleteElem(A+"DB.deleted"))
 	tr.Dom("R3", p.Call(A+"DB.gc"), cp)
-	k := c.Fn(A + "DB.keepSeriesInWALCheckpointFn").InnerClosure("keep", eng.CallNamed("GetByID"))
+	k := c.Fn(A+"DB.keepSeriesInWALCheckpointFn").InnerClosure("keep", eng.CallNamed("GetByID"))
 	k.Has("R3", eng.CallNamed("GetByID"), 1)
 	k.Has("R3", p.FieldUse(A+"DB.deleted"), 1)
 	k.Only("R3", eng.Return("", nil), "keeps existing series, and deleted ones while a later segment may refer to them", func(l eng.Loc) bool {
